@@ -102,6 +102,10 @@ def replay(case):
         from opendsm.eemeter.models.billing.model import BillingModel
         cls = BillingModel if case["family"] == "billing" else DailyModel
         doc = param_doc(case["family"], case["shape"], case["split"], case["warn"])
+        if case.get("settings_override"):
+            from opendsm.eemeter.models.daily.utilities.settings import DailySettings, DailyLegacySettings
+            cls_s = DailyLegacySettings if case["family"] == "billing" else DailySettings
+            doc["settings"] = cls_s(**case["settings_override"]).model_dump()     # a profile the constructor accepts, as it is stored
         pristine = json.loads(json.dumps(doc))
         given = json.loads(json.dumps(doc))
         m1 = cls.from_dict(given)
@@ -155,15 +159,19 @@ def fitted(family, profile="current"):
             rep = em.BillingReportingData.from_series(meter, temp, is_electricity_data=True)
             m = em.BillingModel().fit(data, ignore_disqualification=True)
             out = (m, lambda mm: mm.predict(rep, ignore_disqualification=True), em.BillingModel)
-    elif family in ("hourly", "hourly_solar"):
+    elif family in ("hourly", "hourly_solar", "hourly_solar_reordered"):
         meter, temp, meta = load_sample("il-electricity-cdd-hdd-hourly")
         df = pd.concat([meter.rename(columns={"value": "observed"}), temp.rename("temperature")], axis=1).dropna()
-        if family == "hourly_solar":
+        if family in ("hourly_solar", "hourly_solar_reordered"):
             h = df.index.hour.values
             df["ghi"] = np.clip(np.sin((h - 12) / 12 * np.pi), 0, None) * 800 + 5.0
         base = em.HourlyBaselineData(df.iloc[: 24 * 120], is_electricity_data=True)
         rep = em.HourlyReportingData(df.iloc[24 * 120: 24 * 170], is_electricity_data=True)
-        m = em.HourlyModel().fit(base, ignore_disqualification=True)
+        if family == "hourly_solar_reordered":
+            # a solar profile whose feature list is NOT in the order fit works in (fit sorts its working list, the settings keep the caller's order)
+            m = em.HourlyModel(settings=em.HourlySolarSettings(train_features=["ghi", "temperature"], seed=5)).fit(base, ignore_disqualification=True)
+        else:
+            m = em.HourlyModel().fit(base, ignore_disqualification=True)
         out = (m, lambda mm: mm.predict(rep, ignore_disqualification=True), em.HourlyModel)
     elif family == "caltrack_hourly":
         from opendsm.eemeter.models.hourly_caltrack.wrapper import HourlyModel as CT
@@ -195,7 +203,13 @@ def run(tier="quick", seed=0):
                         continue
                     case = {"kind": "params", "family": family, "shape": shape, "split": split, "warn": warn}
                     _one(b, case, (family, shape, split, warn))
-    fits = [("daily", "current"), ("hourly", "current"), ("hourly_solar", "current"), ("daily", "legacy"), ("billing", "current"), ("caltrack_hourly", "current")]
+    fits = [("daily", "current"), ("hourly", "current"), ("hourly_solar", "current"), ("hourly_solar_reordered", "current"), ("daily", "legacy"), ("billing", "current"),
+            ("caltrack_hourly", "current")]
+    # developer-mode profiles whose overrides include options set to None (stored as null)
+    for family in ("daily", "billing"):
+        case = {"kind": "params", "family": family, "shape": "hdd_tidd_cdd_smooth", "split": "season2", "warn": False,
+                "settings_override": {"developer_mode": True, "alpha_final_type": None, "final_bounds_scalar": None, "alpha_final": None}}
+        _one(b, case, (family, "developer_none_overrides"))
     for family, profile in fits:
         case = {"kind": "fit", "family": family, "profile": profile}
         known = "C01-legacy-profile-reload" if (family, profile) == ("daily", "legacy") else None
